@@ -114,6 +114,11 @@ def records():
                         choices = [vals[n] for n in names]
                         for combo in itertools.islice(itertools.product(*choices), 4):
                             out.append((t, dict(zip(names, combo))))
+    # REAL members with a DEFAULT: values that only a float would take for the default (beyond 53 bits, below the
+    # smallest double) are encoded; another spelling of the default itself is omitted
+    big = T('SEQUENCE', [], fields=[('r', T('REAL'), ('default', (2 ** 53, 2, 0))), ('z', T('REAL', [('I', CTX, 0)]), ('default', (0, 2, 0)))])
+    out += [(big, {'r': (2 ** 53 + 1, 2, 0)}), (big, {'r': (2 ** 52, 2, 1)}), (big, {'z': (1, 2, -2000)}),
+            (big, {'r': (2 ** 53 + 1, 2, 0), 'z': (-1, 2, -1100)}), (big, {})]
     return out
 
 
